@@ -274,3 +274,38 @@ func (i *interpreter) lookupFunc(full string) *ssa.Function {
 	}
 	return p.Func(full[k+1:])
 }
+
+// lookupMethod finds the pointer-receiver method T.name of a named type in a package.
+func (i *interpreter) lookupMethod(pkgPath, typeName, method string) *ssa.Function {
+	p := i.prog.ImportedPackage(pkgPath)
+	if p == nil {
+		return nil
+	}
+	t := p.Type(typeName)
+	if t == nil {
+		return nil
+	}
+	ptr := types.NewPointer(t.Type())
+	sel := i.prog.MethodSets.MethodSet(ptr).Lookup(p.Pkg, method)
+	if sel == nil {
+		return nil
+	}
+	return i.prog.MethodValue(sel)
+}
+
+// lookupValueMethod finds the value-receiver method T.name.
+func (i *interpreter) lookupValueMethod(pkgPath, typeName, method string) *ssa.Function {
+	p := i.prog.ImportedPackage(pkgPath)
+	if p == nil {
+		return nil
+	}
+	t := p.Type(typeName)
+	if t == nil {
+		return nil
+	}
+	sel := i.prog.MethodSets.MethodSet(t.Type()).Lookup(p.Pkg, method)
+	if sel == nil {
+		return nil
+	}
+	return i.prog.MethodValue(sel)
+}
